@@ -1,5 +1,9 @@
 import PPLV.WR.Trans
 import PPLV.WR.TransOct
+import PPLV.WR.Trans2Lhs
+import PPLV.WR.TransOct2Gen
+import PPLV.WR.Trans2Lat
+import PPLV.WR.TransOct2Lat
 import PPLV.Lin.Parse
 /-!
 native driver `pplv_wrt` — correspondence of the transformer models of `PPLV/WR/Trans.lean`
@@ -353,12 +357,412 @@ def leMat (a b : List (List ExtRat)) : Bool :=
 
 def hasNaN (s : String) : Bool := (s.splitOn "nan").length > 1 || (s.splitOn "-inf").length > 1
 
+/-! ## stage 5: the remaining transformers, lattice and dimension operations (both domains)
+
+Journal (same layout, `harness/c03_trans.cc`, section `stage 5`); octagon op codes carry the prefix `o`:
+
+* `[o]addc / [o]refine <sd> <kind> <inhomo> <coeffs>`, `[o]refv <var> <le|ge|eq> <den> <b> <coeffs>` (private
+  `refine(var, relsym, expr, den)`), `ogaff`, `obaff`, `oapre`, `ogapre`, `ounc` (as the BD ones),
+  `[o]gaffl / [o]gaprel <le|ge|eq> <bl> <lcoeffs> <br> <rcoeffs>` (`generalized_affine_(pre)image(lhs, relsym, rhs)`):
+  `after` is a matrix, `E` or `X:<class>`
+* `[o]meet [o]join [o]diff [o]tel <closed2> <matrix2>`, `[o]concat <n2> <closed2> <matrix2>`, `[o]embed <k>`,
+  `[o]project <k>`, `[o]rmdims <vars|->`, `[o]rmhi <newdim>`, `[o]mapdims <pf>` (`x` = undefined), `[o]expand <var> <k>`,
+  `[o]fold <vars|-> <dest>`: `after` is `<n'>|<closed'>|<matrix or ->`, `E` or `X:<class>`
+
+Verdicts as above (`ok` / `okle` / `MISMATCH … model` / `NAN` / `skip … coeff` / `CRASH`, second line `JUDGE-FAIL`), and
+`judged <id> <op> <tag> <J|F|->` for an operation without a model (`[o]tel`, and `[o]diff` while its model is missing): only the
+K1 judge speaks.  The judge: the exact result is a UNION of K1 reference polyhedra (`pieces`), every piece must be
+contained in `after` (`E`: every piece infeasible); `tel`: `X ⊆ after` and every row of `after` is non-decreasing along
+every point of `Y` (`X + cone(Y) ⊆ after` for a closed convex `after`); where the operation is exact on γ for every `T`
+(`meet`, `concat`, `embed`, `project`, `expand`, `mapdims` of a total map; `rmdims`, `rmhi`, partial `mapdims` for `mpq_class`)
+`after ⊆ exact` is demanded too (`JUDGE-FAIL … not exact`). -/
+
+def parseMat2 (s : String) : Option (List (List ExtRat)) := if s == "-" then some [] else parseMat s
+def showMat2 (rows : List (List ExtRat)) : String := if rows.isEmpty then "-" else showMat rows
+
+def parseNats (s : String) : Option (List Nat) :=
+  if s == "-" then some [] else (s.splitOn ",").mapM String.toNat?
+
+def parsePf (s : String) : Option (List (Option Nat)) :=
+  (s.splitOn ",").mapM fun t => if t == "x" then some none else t.toNat?.map some
+
+inductive Op5 where
+  | con (oct add : Bool) (sd : Nat) (kind : CKind) (inhomo : Int) (cf : List Int)
+  | refv (oct : Bool) (var : Nat) (rel : RelSym) (den b : Int) (cf : List Int)
+  | ogaff (var : Nat) (rel : RelSym) (den b : Int) (cf : List Int)
+  | obaff (var : Nat) (den bl : Int) (lcf : List Int) (bu : Int) (ucf : List Int)
+  | oapre (var : Nat) (den b : Int) (cf : List Int)
+  | ogapre (var : Nat) (rel : RelSym) (den b : Int) (cf : List Int)
+  | ounc (var : Nat)
+  | lhs (oct pre : Bool) (rel : RelSym) (bl : Int) (lcf : List Int) (br : Int) (rcf : List Int)
+  | bin (oct : Bool) (kind : String) (c2 : Bool) (m2 : List (List ExtRat))
+  | concat (oct : Bool) (n2 : Nat) (c2 : Bool) (m2 : List (List ExtRat))
+  | embed (oct project : Bool) (k : Nat)
+  | rmdims (oct : Bool) (vars : List Nat)
+  | rmhi (oct : Bool) (k : Nat)
+  | mapdims (oct : Bool) (pf : List (Option Nat))
+  | expand (oct : Bool) (var k : Nat)
+  | fold (oct : Bool) (vars : List Nat) (dest : Nat)
+
+def nArgs5 (bop : String) : Option Nat :=
+  match bop with
+  | "addc" | "refine" | "apre" => some 4
+  | "refv" | "gaff" | "gapre" | "gaffl" | "gaprel" => some 5
+  | "baff" => some 6
+  | "unc" | "embed" | "project" | "rmdims" | "rmhi" | "mapdims" => some 1
+  | "meet" | "join" | "diff" | "tel" | "expand" | "fold" => some 2
+  | "concat" => some 3
+  | _ => none
+
+/-- `(is octagon, op without the prefix)`; the stage-3 code `oaff` and the BD codes of stage 3 are not stage-5 codes -/
+def splitOp5 (op : String) : Option (Bool × String) :=
+  let s3 := ["refine", "addc", "aff", "gaff", "baff", "apre", "gapre", "unc", "oaff"]
+  if s3.contains op then none
+  else if op.startsWith "o" && (nArgs5 (op.drop 1).toString).isSome then some (true, (op.drop 1).toString)
+  else if (nArgs5 op).isSome then some (false, op)
+  else none
+
+def parseOp5 (oct : Bool) (bop : String) (args : List String) : Option Op5 :=
+  match bop, args with
+  | "refine", [sd, k, i, cf] => do some (.con oct false (← sd.toNat?) (← parseKind k) (← i.toInt?) (← parseInts cf))
+  | "addc", [sd, k, i, cf] => do some (.con oct true (← sd.toNat?) (← parseKind k) (← i.toInt?) (← parseInts cf))
+  | "refv", [v, r, d, b, cf] => do
+    some (.refv oct (← v.toNat?) (← parseRelSym r) (← d.toInt?) (← b.toInt?) (← parseInts cf))
+  | "gaff", [v, r, d, b, cf] => do
+    some (.ogaff (← v.toNat?) (← parseRelSym r) (← d.toInt?) (← b.toInt?) (← parseInts cf))
+  | "gapre", [v, r, d, b, cf] => do
+    some (.ogapre (← v.toNat?) (← parseRelSym r) (← d.toInt?) (← b.toInt?) (← parseInts cf))
+  | "apre", [v, d, b, cf] => do some (.oapre (← v.toNat?) (← d.toInt?) (← b.toInt?) (← parseInts cf))
+  | "baff", [v, d, bl, lcf, bu, ucf] => do
+    some (.obaff (← v.toNat?) (← d.toInt?) (← bl.toInt?) (← parseInts lcf) (← bu.toInt?) (← parseInts ucf))
+  | "unc", [v] => do some (.ounc (← v.toNat?))
+  | "gaffl", [r, bl, lcf, br, rcf] => do
+    some (.lhs oct false (← parseRelSym r) (← bl.toInt?) (← parseInts lcf) (← br.toInt?) (← parseInts rcf))
+  | "gaprel", [r, bl, lcf, br, rcf] => do
+    some (.lhs oct true (← parseRelSym r) (← bl.toInt?) (← parseInts lcf) (← br.toInt?) (← parseInts rcf))
+  | "concat", [n2, c2, m2] => do some (.concat oct (← n2.toNat?) (c2 == "1") (← parseMat2 m2))
+  | "embed", [k] => do some (.embed oct false (← k.toNat?))
+  | "project", [k] => do some (.embed oct true (← k.toNat?))
+  | "rmdims", [vs] => do some (.rmdims oct (← parseNats vs))
+  | "rmhi", [k] => do some (.rmhi oct (← k.toNat?))
+  | "mapdims", [pf] => do some (.mapdims oct (← parsePf pf))
+  | "expand", [v, k] => do some (.expand oct (← v.toNat?) (← k.toNat?))
+  | "fold", [vs, d] => do some (.fold oct (← parseNats vs) (← d.toNat?))
+  | kind, [c2, m2] =>
+    if ["meet", "join", "diff", "tel"].contains kind then do some (.bin oct kind (c2 == "1") (← parseMat2 m2)) else none
+  | _, _ => none
+
+/-- the integers the operation converts to `T` (bounded `T`: a case with one of them beyond the range is outside the model) -/
+def Op5.convInts : Op5 → List Int
+  | .refv _ _ _ _ _ cf => cf
+  | .ogaff _ _ _ _ cf => cf
+  | .obaff _ _ _ lcf _ ucf => lcf ++ ucf
+  | .oapre _ d _ cf => d :: cf
+  | .ogapre _ _ d _ cf => d :: cf
+  | .lhs _ _ _ _ lcf _ rcf => lcf ++ rcf
+  | _ => []
+
+def Op5.den : Op5 → Int
+  | .refv _ _ _ d .. => d | .ogaff _ _ d .. => d | .obaff _ d .. => d | _ => 1
+
+def Op5.isOct : Op5 → Bool
+  | .con o .. => o | .refv o .. => o | .lhs o .. => o | .bin o .. => o | .concat o .. => o | .embed o .. => o
+  | .rmdims o _ => o | .rmhi o _ => o | .mapdims o _ => o | .expand o .. => o | .fold o .. => o
+  | _ => true
+
+inductive Res5 where
+  | mat (rows : List (List ExtRat))
+  | lat (dim : Nat) (closed : Bool) (rows : List (List ExtRat))
+  | empty
+  | throws
+  | nomodel
+
+def Res5.show : Res5 → String
+  | .mat m => showMat2 m
+  | .lat d c m => s!"{d}|{if c then 1 else 0}|{showMat2 m}"
+  | .empty => "E"
+  | .throws => "X"
+  | .nomodel => "?"
+
+def out5 (oct : Bool) (n : Nat) (m : Mat) : List (List ExtRat) := if oct then octOut n m else bdsOut n m
+
+def ofOpt5 (oct : Bool) (n : Nat) : Option Mat → Res5
+  | some m => .mat (out5 oct n m)
+  | none => .empty
+
+def ofOutcome5 (oct : Bool) (n : Nat) : Outcome → Res5
+  | .ok m => .mat (out5 oct n m)
+  | .empty => .empty
+  | .throws => .throws
+
+/-! ### the models' answers -/
+def ofLat (oct : Bool) : Option LatRes → Res5
+  | some r => .lat r.dim r.closed (out5 oct r.dim r.m)
+  | none => .empty
+
+def run5 (R : Rnd) (n : Nat) (closed : Bool) (before : List (List ExtRat)) : Op5 → Res5
+  | .con false false sd k i cf => ofOutcome5 false n (refineNoCheck R sd (fnOf cf) i k (DBM.ofLists n before).e)
+  | .con false true sd k i cf => ofOutcome5 false n (addConstraint R sd (fnOf cf) i k (DBM.ofLists n before).e)
+  | .con true false sd k i cf => ofOutcome5 true n (octRefineNoCheck R n sd (fnOf cf) i k (OctM.ofLists n before).e)
+  | .con true true sd k i cf => ofOutcome5 true n (octAddConstraint R n sd (fnOf cf) i k (OctM.ofLists n before).e)
+  | .refv false v r d b cf => .mat (bdsOut n (bdsRefineVar R n v r (fnOf cf) b d (DBM.ofLists n before).e))
+  | .refv true v r d b cf => ofOpt5 true n (octRefineVar R n v r (fnOf cf) b d (OctM.ofLists n before).e)
+  | .ogaff v r d b cf => ofOpt5 true n (octGenAffineImage R closed v r (fnOf cf) b d (OctM.ofLists n before))
+  | .obaff v d bl lcf bu ucf =>
+    ofOpt5 true n (octBoundedAffineImage R closed v (fnOf lcf) bl (fnOf ucf) bu d (OctM.ofLists n before))
+  | .oapre v d b cf => ofOpt5 true n (octAffinePreimage R closed v (fnOf cf) b d (OctM.ofLists n before))
+  | .ogapre v r d b cf => ofOpt5 true n (octGenAffinePreimage R closed v r (fnOf cf) b d (OctM.ofLists n before))
+  | .ounc v => ofOpt5 true n (octUnconstrain R closed v (OctM.ofLists n before))
+  | .lhs false false r bl lcf br rcf =>
+    ofOpt5 false n (bdsLhsGenAffineImage R closed r (fnOf lcf) bl (fnOf rcf) br (DBM.ofLists n before))
+  | .lhs false true r bl lcf br rcf =>
+    ofOpt5 false n (bdsLhsGenAffinePreimage R closed r (fnOf lcf) bl (fnOf rcf) br (DBM.ofLists n before))
+  | .lhs true _ _ _ _ _ _ => .nomodel
+  | .bin oct kind c2 m2 =>
+    let m1 : Mat := if oct then (OctM.ofLists n before).e else (DBM.ofLists n before).e
+    let y : Mat := if oct then (OctM.ofLists n m2).e else (DBM.ofLists n m2).e
+    match kind, oct with
+    | "meet", false => ofLat false (bdsLatIntersection R n closed m1 c2 y)
+    | "meet", true => ofLat true (octLatIntersection R n closed m1 c2 y)
+    | "join", false => ofLat false (bdsLatUpperBound R n closed m1 c2 y)
+    | "join", true => ofLat true (octLatUpperBound R n closed m1 c2 y)
+    | _, _ => .nomodel                 -- diff: the model takes the results of contains / relation_with / constraints as arguments; tel: no model
+  | .concat false n2 c2 m2 =>
+    ofLat false (bdsLatConcatenate R n closed (DBM.ofLists n before).e n2 c2 (DBM.ofLists n2 m2).e)
+  | .concat true n2 c2 m2 =>
+    ofLat true (octLatConcatenate R n closed (OctM.ofLists n before).e n2 c2 (OctM.ofLists n2 m2).e)
+  | .embed false false k => ofLat false (bdsLatEmbed R n closed (DBM.ofLists n before).e k)
+  | .embed false true k => ofLat false (bdsLatProject R n closed (DBM.ofLists n before).e k)
+  | .embed true false k => ofLat true (octLatEmbed R n closed (OctM.ofLists n before).e k)
+  | .embed true true k => ofLat true (octLatProject R n closed (OctM.ofLists n before).e k)
+  | .rmdims false vs => ofLat false (bdsLatRemoveDims R n closed (DBM.ofLists n before).e vs)
+  | .rmdims true vs => ofLat true (octLatRemoveDims R n closed (OctM.ofLists n before).e vs)
+  | .rmhi false k => ofLat false (bdsLatRemoveHigher R n closed (DBM.ofLists n before).e k)
+  | .rmhi true k => ofLat true (octLatRemoveHigher R n closed (OctM.ofLists n before).e k)
+  | .mapdims false pf => ofLat false (bdsLatMapDims R n closed (DBM.ofLists n before).e pf)
+  | .mapdims true pf => ofLat true (octLatMapDims R n closed (OctM.ofLists n before).e pf)
+  | .expand false v k => ofLat false (bdsLatExpand R n closed (DBM.ofLists n before).e v k)
+  | .expand true v k => ofLat true (octLatExpand R n closed (OctM.ofLists n before).e v k)
+  | .fold false vs d => ofLat false (bdsLatFold R n closed (DBM.ofLists n before).e vs d)
+  | .fold true vs d => ofLat true (octLatFold R n closed (OctM.ofLists n before).e vs d)
+
+def relTag : RelSym → String
+  | .le => "le" | .ge => "ge" | .eq => "eq"
+
+def bflag (b : Bool) : String := if b then "1" else "0"
+
+/-- `Octagonal_Shape::refine(var, relsym, expr, den)`: the branch (coverage; `ge.g.c1.eqden.uGEv` is the structural class
+of the open findings KF-C03-75..78: `GREATER_OR_EQUAL`, one variable `u >= var` unbounded, its coefficient equal to `den`) -/
+def orefTag (R : Rnd) (n vid : Nat) (rel : RelSym) (e : Nat → Int) (den : Int) (m : Mat) : String :=
+  let w := lastNonzero e n
+  let t0 := exprT e w
+  let w_id := w - 1
+  let t := if t0 = 1 ∧ e w_id ≠ den ∧ e w_id ≠ - den then 2 else t0
+  if t ≠ 2 then s!"t{t}"
+  else
+    match rel with
+    | .eq => "g"
+    | _ =>
+      let sc := scExpr e den
+      let st := loopUp (w_id + 1) (octAccStepG R m sc (decide (rel = .le))) ⟨fin 0, 0, 0⟩
+      if st.cnt = 1 then
+        s!"g.c1.{if e st.idx = den then "eqden" else if e st.idx = - den then "eqmden" else "other"}.{if st.idx < vid then "uLTv" else "uGEv"}"
+      else s!"g.c{cnt2 st.cnt}"
+
+/-- `generalized_affine_preimage(var, relsym, expr, den)` of an octagon -/
+def ogapreTag (R : Rnd) (n : Nat) (closed : Bool) (before : List (List ExtRat)) (v : Nat) (r : RelSym) (d : Int)
+    (cf : List Int) : String :=
+  if r = .eq then s!"eq.{preTag n v (fnOf cf) d}"
+  else if (fnOf cf) v ≠ 0 then s!"{relTag r}.inv.{plainForm n (v+1) (fnOf cf) d}"
+  else
+    match octCloseFirst R.up closed (OctM.ofLists n before) with
+    | none => "E"
+    | some m => s!"{relTag r}.ref.{orefTag R n v r (fnOf cf) d m}"
+
+/-- which branch of the code the case exercises (coverage only) -/
+def tag5 (R : Rnd) (n : Nat) (closed : Bool) (before : List (List ExtRat)) : Op5 → String
+  | .con _ _ _ k _ _ => match k with | .eq => "eq" | .ge => "ge" | .gt => "gt"
+  | .refv false v r d _ cf => s!"{relTag r}.{plainForm n (v+1) (fnOf cf) d}/{dsign d}"
+  | .refv true v r d _ cf => s!"{relTag r}.ref.{orefTag R n v r (fnOf cf) d (OctM.ofLists n before).e}/{dsign d}"
+  | .ogaff v r d _ cf => s!"{relTag r}.{plainForm n (v+1) (fnOf cf) d}/{dsign d}"
+  | .obaff v d _ lcf _ ucf => s!"ub.{plainForm n (v+1) (fnOf ucf) d}:lb.{plainForm n (v+1) (fnOf lcf) d}/{dsign d}"
+  | .oapre v d _ cf => s!"{preTag n v (fnOf cf) d}/{dsign d}"
+  | .ogapre v r d _ cf => s!"{ogapreTag R n closed before v r d cf}/{dsign d}"
+  | .ounc _ => "unc"
+  | .lhs oct pre r _ lcf _ rcf =>
+    let el := fnOf lcf
+    let er := fnOf rcf
+    let t := (lhsForm el n).1
+    let common := lhsHaveCommonVar el er (min (lhsSpaceDim el n) (lhsSpaceDim er n))
+    let deleg := if t = 1 ∧ pre ∧ oct then
+        let v := (lhsForm el n).2
+        "." ++ ogapreTag R n closed before v (lhsNewRelSym r (el v)) (el v) ((List.range n).map er) else ""
+    s!"{relTag r}{deleg}.lhs{t}{if t = 2 then (if common then ".shared" else ".disjoint") else if t = 1 then (if el (lhsForm el n).2 < 0 then ".a-" else ".a+") else ""}.rhs{exprT er (lastNonzero er n)}"
+  | .bin _ kind c2 _ => s!"{kind}.c{bflag closed}{bflag c2}"
+  | .concat _ n2 c2 _ => s!"n2={n2}.c{bflag closed}{bflag c2}"
+  | .embed _ _ k => s!"k={k}.c{bflag closed}"
+  | .rmdims _ vs => s!"rm{vs.length}of{n}.c{bflag closed}"
+  | .rmhi _ k => s!"to{k}of{n}.c{bflag closed}"
+  | .mapdims _ pf => s!"{if pf.all Option.isSome then "total" else "partial"}.c{bflag closed}"
+  | .expand _ _ k => s!"k={k}.c{bflag closed}"
+  | .fold _ vs _ => s!"fold{vs.length}of{n}.c{bflag closed}"
+
+/-! ### the judge -/
+open PPLV.Lin in
+def rows5 (oct : Bool) (n : Nat) (m : List (List ExtRat)) : List Con := if oct then octRows n m else matRows n m
+
+open PPLV.Lin in
+def relOf : RelSym → Rel
+  | .le => Rel.le | .ge => Rel.ge | .eq => Rel.eq
+
+open PPLV.Lin in
+/-- the rows of `var relsym (cf·x + b)/den` -/
+def refvRows (n var : Nat) (rel : RelSym) (den b : Int) (cf : List Int) : List Con :=
+  -- `den·x_var − cf·x − b  ⋈  0`, the relation flipped for a negative denominator
+  let row := (List.range n).map fun k => (if k = var then den else 0) - cf.getD k 0
+  let r := if den < 0 then (relOf rel).flip else relOf rel
+  relRows r row (- b)
+
+open PPLV.Lin in
+/-- the exact result as a union of reference polyhedra, the dimension of the result, and whether the operation is exact
+on γ (then `after ⊆ exact` is demanded as well); `isId`: exact arithmetic -/
+def pieces5 (isId : Bool) (n : Nat) (p : RefPoly) : Op5 → List RefPoly × Bool
+  | .con _ _ _ k i cf =>
+    ([p.addCons (match k with | .eq => eqRows cf i | .ge => [geRow cf i] | .gt => [gtRow cf i])], false)
+  | .refv _ v r d b cf => ([p.addCons (refvRows n v r d b cf)], false)
+  | .ogaff v r d b cf => ([p.genAffineImage v (relOf r) ⟨cf, b⟩ d], false)
+  | .obaff v d bl lcf bu ucf => ([p.boundedAffineImage v ⟨lcf, bl⟩ ⟨ucf, bu⟩ d], false)
+  | .oapre v d b cf => ([p.affinePreimage v ⟨cf, b⟩ d], false)
+  | .ogapre v r d b cf => ([p.genAffinePreimage v (relOf r) ⟨cf, b⟩ d], false)
+  | .ounc v => ([p.unconstrain [v]], false)
+  | .lhs _ false r bl lcf br rcf => ([p.genAffineImage2 ⟨lcf, bl⟩ (relOf r) ⟨rcf, br⟩], false)
+  | .lhs _ true r bl lcf br rcf => ([p.genAffinePreimage2 ⟨lcf, bl⟩ (relOf r) ⟨rcf, br⟩], false)
+  | .bin oct kind _ m2 =>
+    let q : RefPoly := ⟨true, n, rows5 oct n m2⟩
+    match kind with
+    | "meet" => ([p.meet q], true)
+    | "join" => ([p, q], false)
+    | "diff" => (q.cs.map fun c => p.addCons [c.neg], false)
+    | _ => ([if feasible n q.cs then p else emptyP true n], false)      -- tel: `X` when `Y` is not empty
+  | .concat oct n2 _ m2 => ([p.concat ⟨true, n2, rows5 oct n2 m2⟩], true)
+  | .embed _ false k => ([p.addDimsEmbed k], true)
+  | .embed _ true k => ([p.addDimsProject k], true)
+  | .rmdims _ vs => ([p.removeDims vs], isId)
+  | .rmhi _ k => ([p.removeHigherDims k], isId)
+  | .mapdims _ pf =>
+    let f := pf.zipIdx.filterMap fun (t, j) => t.map fun fj => (j, fj)
+    let nOut := f.foldl (fun acc (_, fj) => max acc (fj + 1)) 0
+    ([p.mapDims nOut f], isId || f.length == n)
+  | .expand _ v k => ([p.expandDim v k], true)
+  | .fold _ vs d =>
+    if vs.isEmpty then ([p], true)
+    else ((p.removeDims vs) :: vs.map fun v =>
+      (p.affineImage d ⟨(List.replicate v 0) ++ [1], 0⟩ 1).removeDims vs, false)
+
+open PPLV.Lin in
+/-- `none` = sound (and exact where demanded) -/
+def judge5 (isId oct : Bool) (n : Nat) (before : List (List ExtRat)) (op : Op5)
+    (after : Option (Nat × List (List ExtRat))) : Option String :=
+  let p : RefPoly := ⟨true, n, rows5 oct n before⟩
+  let (ps, exact) := pieces5 isId n p op
+  match after with
+  | none =>
+    if ps.any fun q => feasible q.n q.cs then some "marked empty, the exact result is not empty" else none
+  | some (n', a) =>
+    let ar := rows5 oct n' a
+    match ps.find? fun q => q.n != n' with
+    | some q => some s!"space dimension {n'} of the result, {q.n} expected"
+    | none =>
+      let bad := ps.flatMap fun q => ar.filter fun c => !implies n' q.cs c
+      if !bad.isEmpty then
+        some s!"the result cuts away points of the exact result: {bad.length} row(s) not implied, first {repr (bad.headD default).coeffs} k={(bad.headD default).k}"
+      else
+        let telBad : List Con := match op with
+          | .bin o "tel" _ m2 =>
+            let q : RefPoly := ⟨true, n, rows5 o n m2⟩
+            if feasible n p.cs && feasible n q.cs then ar.filter fun c => !implies n q.cs ⟨c.coeffs, 0, false⟩ else []
+          | _ => []
+        if !telBad.isEmpty then
+          some s!"time elapse: a row of the result decreases along a point of y: {repr (telBad.headD default).coeffs}"
+        else if exact then
+          match ps with
+          | [q] => if subsetB n' ar q.cs then none else some "not exact: the result is strictly larger than the exact result"
+          | _ => none
+        else none
+
+/-- `after` of a stage-5 event: `none` = `E`; the dimension defaults to `n` for the transformers -/
+def parseAfter5 (n : Nat) (after : String) : Option (Option (Nat × Bool × List (List ExtRat))) :=
+  if after == "E" || after.startsWith "X:" then some none
+  else match after.splitOn "|" with
+    | [m] => (parseMat2 m).map fun r => some (n, false, r)
+    | [d, c, m] => do some (some ((← d.toNat?), c == "1", (← parseMat2 m)))
+    | _ => none
+
+def process5 (printOnly noJudge : Bool) (id op mode n closed before : String) (oct : Bool) (bop : String)
+    (rest : List String) : List String :=
+  match nArgs5 bop with
+  | none => [s!"MISMATCH {id} parse {op}"]
+  | some k =>
+    if rest.length == k + 2 && rest.getD k "" == "crash" then [s!"CRASH {id} {op} {rest.getD (k+1) "?"}"]
+    else if rest.length != k + 1 then [s!"MISMATCH {id} parse {op} arity"]
+    else
+      let after := rest.getD k ""
+      let r : Option (List String) := do
+        let md ← parseMode mode
+        let n ← n.toNat?
+        let b ← parseMat2 before
+        let o ← parseOp5 oct bop (rest.take k)
+        let closed := closed == "1"
+        let (R, hi, isDbl, isId) := match md with
+          | .exact R hi => (R, hi, false, mode == "id")
+          | .dbl => (Rnd.exact, none, true, false)
+        let tag := tag5 R n closed b o
+        let tag := match hi with
+          | some h => if o.den > h ∨ o.den < -h then tag ++ "/bigden" else tag
+          | none => tag
+        if printOnly then some [s!"{id} {(run5 R n closed b o).show}"] else
+        let outside := match hi with
+          | some h => o.convInts.any fun c => decide (c > h ∨ c < -h)
+          | none => false
+        if hasNaN after || after == "X:int" then
+          some [s!"NAN {id} {op} {tag} {if after == "X:int" then "threw" else "entry"}{if outside then " coeff" else ""} maxb={maxBound R n closed oct b}"] else
+        let wantA ← parseAfter5 n after
+        let jres : Option String :=
+          if noJudge || after.startsWith "X:" then none else judge5 isId oct n b o (wantA.map fun (d, _, m) => (d, m))
+        let jl := match jres with
+          | some why => [s!"JUDGE-FAIL {id} {op} {tag} {why}"]
+          | none => []
+        let jflag := if noJudge || after.startsWith "X:" then "-" else if jres.isNone then "J" else "F"
+        if outside then some (s!"skip {id} coeff {op} {jflag}" :: jl) else
+        let got := run5 R n closed b o
+        match got with
+        | .nomodel => some (s!"judged {id} {op} {tag} {jflag}" :: jl)
+        | _ =>
+        let wantS := if after.startsWith "X:" then "X" else after
+        if !isDbl then
+          if got.show == wantS then some (s!"ok {id} {op} {tag} {jflag}" :: jl)
+          else some (s!"MISMATCH {id} model {op} {tag} got={got.show} want={wantS}" :: jl)
+        else
+          let fine := match got, wantA with
+            | .mat g, some (_, _, w) => leMat g w
+            | .lat d _ g, some (d', _, w) => d == d' && leMat g w
+            | .empty, _ => !after.startsWith "X:"      -- exact arithmetic detects emptiness earlier
+            | .throws, _ => after.startsWith "X:"
+            | _, none => false
+            | .nomodel, _ => true
+          if fine then some (s!"okle {id} {op} {tag} {jflag}" :: jl)
+          else some (s!"MISMATCH {id} model {op} {tag} got={got.show} want={wantS} (mode dbl: model <= real demanded)" :: jl)
+      r.getD [s!"MISMATCH {id} parse {op}"]
+
 def processLine (printOnly noJudge : Bool) (line : String) : List String :=
   let ws := (line.trimAscii.toString.splitOn " ").filter (· ≠ "")
   match ws with
   | [] => []
   | ["end"] => []
   | id :: op :: mode :: n :: closed :: before :: rest =>
+    match splitOp5 op with
+    | some (oct, bop) => process5 printOnly noJudge id op mode n closed before oct bop rest
+    | none =>
     match nArgs op with
     | none => [s!"MISMATCH {id} parse {op}"]
     | some k =>
